@@ -6,7 +6,9 @@ import (
 
 	sdk "github.com/cosmos/cosmos-sdk/types"
 
+	marketapi "github.com/regen-network/regen-ledger/api/v2/regen/ecocredit/marketplace/v1"
 	markettypes "github.com/regen-network/regen-ledger/x/ecocredit/v3/marketplace/types/v1"
+	"google.golang.org/protobuf/proto"
 
 	"verif/chain"
 	"verif/eng"
@@ -165,6 +167,13 @@ func (m *C07) AfterMsg(w *eng.World, st *eng.MsgStep) {
 			w.Violation("C07", "partly-filled-order-removed", "order %d should have %s left but was removed", id, ref.RatString(left))
 		case left.Sign() > 0 && ref.MustRat(po.Quantity).Cmp(left) != 0:
 			w.Violation("C07", "order-quantity-wrong", "order %d has %s left, want %s", id, po.Quantity, ref.RatString(left))
+		case left.Sign() > 0:
+			// a partial fill changes nothing but the quantity
+			x := proto.Clone(pre.OrderByID(id)).(*marketapi.SellOrder)
+			x.Quantity = po.Quantity
+			if !proto.Equal(x, po) {
+				w.Violation("C07", "partial-fill-changed-order", "partial fill of order %d changed more than its quantity: %v -> %v", id, pre.OrderByID(id), po)
+			}
 		}
 	}
 	// ---- credits ----
